@@ -136,7 +136,12 @@ def init_cleanup_pairs(prog, an):
         ht = handle_type(f)
         if ht is None:
             continue
-        if any(True for _ in direct_calls(f, {"free"})):
+        if any(True for _ in direct_calls(f, {"free"})) or \
+                (an.summaries[f.key].frees and not f.name.startswith("_") and
+                 any(a is not None and a.root == ("arg", 0) for (_, _, a, _, _, _) in an.summaries[f.key].frees) and
+                 not any(True for i in f.all_insts() if i["op"] == "call" and i["callee"][0] in ("i", "a"))):
+            # releases directly, or through a helper that is handed (part of) this function's object; public
+            # dispatchers, which release through a back-end table, are not the owners
             cleans.setdefault((f.unit, ht), []).append(f)
         if alloc_sites(prog, an, f):
             inits.setdefault((f.unit, ht), []).append(f)
